@@ -102,6 +102,12 @@ bool ops_bias(Ctx &c, Toks const &t)
     o.clear();
     for (size_t i = 0; i < a->gradients->data.size(); i++) o.push_back(ftok(a->gradients->data[i]));
     c.out("grad", join(o));
+    if (a->pmf && a->pmf->nd > 1) {
+      // on-the-fly integration: the divergence kept up to date sample by sample
+      o.clear();
+      for (size_t i = 0; i < a->pmf->divergence.size(); i++) o.push_back(ftok(a->pmf->divergence[i]));
+      c.out("pmfdiv", join(o));
+    }
     return true;
   }
   return false;
